@@ -23,7 +23,10 @@ pub enum AnyId {
     Ty(TypeId),
 }
 
-pub const COLLS: [&str; 11] = ["funcs", "globals", "tables", "memories", "data", "elements", "imports", "exports", "customs", "locals", "types"];
+/// "types+function": the types collection of a module that already holds a function built with
+/// the builder (signature (i64, f32) -> ()): besides that signature the module then holds the
+/// internal, never emitted type of the function's entry sequence, which no public lookup may see
+pub const COLLS: [&str; 12] = ["funcs", "globals", "tables", "memories", "data", "elements", "imports", "exports", "customs", "locals", "types", "types+function"];
 
 #[derive(Clone, Debug, PartialEq, Eq)]
 pub enum IOp {
@@ -38,10 +41,21 @@ pub struct IdObj {
     serial: usize,
     anchor_func: FunctionId,
     findings: Vec<Finding>,
+    /// ids present in iteration that the public API never issued (internal entry types)
+    internal: Vec<AnyId>,
 }
 
 pub struct IdSubject {
     pub coll: &'static str,
+    pub with_function: bool,
+}
+
+impl IdSubject {
+    pub fn of(name: &str) -> IdSubject {
+        let with_function = name == "types+function";
+        let coll = if with_function { "types" } else { COLLS.iter().find(|x| **x == name).copied().unwrap_or("globals") };
+        IdSubject { coll, with_function }
+    }
 }
 
 const SIGS: [(&[ValType], &[ValType]); 3] = [(&[], &[]), (&[ValType::I32], &[ValType::I32]), (&[ValType::I64, ValType::F32], &[])];
@@ -208,12 +222,28 @@ impl Subject for IdSubject {
             b.func_body().unreachable();
             b.finish(vec![], &mut scratch.funcs)
         };
-        Ok(IdObj { m, issued: vec![], serial: 0, anchor_func, findings: vec![] })
+        let mut issued = vec![];
+        let mut internal = vec![];
+        if self.with_function {
+            let (p, r) = SIGS[2];
+            let mut b = FunctionBuilder::new(&mut m.types, p, r);
+            b.func_body().unreachable();
+            let args: Vec<LocalId> = p.iter().map(|t| m.locals.add(*t)).collect();
+            let f = b.finish(args, &mut m.funcs);
+            let ty = m.funcs.get(f).ty();
+            issued.push((AnyId::Ty(ty), Some(format!("type {:?}->{:?}", p, r))));
+            internal = m.types.iter().map(|t| AnyId::Ty(t.id())).filter(|i| *i != AnyId::Ty(ty)).collect();
+        }
+        Ok(IdObj { m, issued, serial: 0, anchor_func, findings: vec![], internal })
     }
     fn ops(&self, hist: &[IOp]) -> Vec<IOp> {
         // replay the reference to know which issued items are live
         let mut live: Vec<bool> = vec![];
         let mut sig_of: Vec<usize> = vec![];
+        if self.with_function {
+            live.push(true);
+            sig_of.push(2);
+        }
         for op in hist {
             match op {
                 IOp::Add(v) => {
@@ -289,7 +319,8 @@ impl Subject for IdSubject {
             }
         }
         // iteration = live items in creation order
-        let it = iter(coll, &o.m);
+        let mut it = iter(coll, &o.m);
+        it.retain(|(i, _)| !o.internal.contains(i));
         let want: Vec<(AnyId, String)> = o.issued.iter().filter_map(|(i, p)| p.clone().map(|p| (*i, p))).collect();
         if it != want {
             let mut a = it.clone();
@@ -381,8 +412,7 @@ fn hist_of(v: &serde_json::Value) -> Vec<IOp> {
 }
 
 fn recheck(c: &Case) -> Vec<Violation> {
-    let coll = COLLS.iter().find(|x| **x == c.coords).copied().unwrap_or("globals");
-    let s = IdSubject { coll };
+    let s = IdSubject::of(&c.coords);
     let h = hist_of(&c.cfg["history"]);
     match replay(&s, &h) {
         Ok((_, fs)) => fs.into_iter().map(|f| Violation::new("C17", f.sig, f.detail, c)).collect(),
@@ -407,7 +437,7 @@ pub fn run(args: &Args) -> i32 {
     let depth = if args.tier == Tier::Quick { 6 } else { 9 };
     let colls: Vec<&'static str> = COLLS.to_vec();
     let (res, _) = pmap(&colls, args.threads, None, |coll| {
-        let s = IdSubject { coll };
+        let s = IdSubject::of(coll);
         explore(&s, depth)
     });
     let mut viol = vec![];
